@@ -92,4 +92,39 @@ theorem fuzzy_does_not_track_directory_copy :
     ∧ (hashOne md5 true [((1, "run0".toList), "exe2".toList)] [some "aa".toList] dirCopyConsumer).isSome = true := by
   decide
 
+def cfgRef (name : String) : Ref :=
+  ⟨("data/" ++ name ++ ":copy").toList, ("data/" ++ name ++ ":copy").toList, "copy".toList, [],
+    .file (some "tolerance: 1\n".toList)⟩
+
+def merge (name : String) (refs : List Ref) : Comp :=
+  { name := name.toList, stage := 0, location := [], mtime := 0, replica := none, exe := "sh".toList,
+    args := "-c \"cat *.cfg\"".toList, refs := refs, backend := .loc }
+
+def mergeBps : Blueprints := [((0, "merge_two".toList), "sh".toList), ((0, "merge_one".toList), "sh".toList)]
+
+/-- `files` as a **set** identifies different work: `merge_two` copies `first.cfg` and `second.cfg` (two files, the
+same contents), `merge_one` copies `first.cfg` only; `sh -c "cat *.cfg"` prints the text twice / once.  With a
+set of `hash:method` entries both get the same strong and fuzzy hash; the list the code builds tells them apart. -/
+theorem set_based_files_identify_different_work :
+    hashOneSet md5 false mergeBps [] (merge "merge_two" [cfgRef "first.cfg", cfgRef "second.cfg"])
+      = hashOneSet md5 false mergeBps [] (merge "merge_one" [cfgRef "first.cfg"])
+    ∧ hashOneSet md5 true mergeBps [] (merge "merge_two" [cfgRef "first.cfg", cfgRef "second.cfg"])
+      = hashOneSet md5 true mergeBps [] (merge "merge_one" [cfgRef "first.cfg"])
+    ∧ (hashOneSet md5 false mergeBps [] (merge "merge_one" [cfgRef "first.cfg"])).isSome = true
+    ∧ hashOne md5 false mergeBps [] (merge "merge_two" [cfgRef "first.cfg", cfgRef "second.cfg"])
+      ≠ hashOne md5 false mergeBps [] (merge "merge_one" [cfgRef "first.cfg"])
+    ∧ hashOne md5 true mergeBps [] (merge "merge_two" [cfgRef "first.cfg", cfgRef "second.cfg"])
+      ≠ hashOne md5 true mergeBps [] (merge "merge_one" [cfgRef "first.cfg"]) := by decide
+
+/-- … and the multiplicity is lost beyond "one or more": `[X, X, Y]` and `[X, Y, Y]` (one of three identical
+files rewritten with the contents of the third) are the same set -/
+theorem set_based_files_identify_rebalanced_contents :
+    let x : Ref := cfgRef "a.cfg"
+    let x' : Ref := cfgRef "b.cfg"
+    let y (n : String) : Ref := { cfgRef n with target := .file (some "tolerance: 2\n".toList) }
+    hashOneSet md5 false mergeBps [] (merge "merge_two" [x, x', y "c.cfg"])
+      = hashOneSet md5 false mergeBps [] (merge "merge_two" [x, y "b.cfg", y "c.cfg"])
+    ∧ hashOne md5 false mergeBps [] (merge "merge_two" [x, x', y "c.cfg"])
+      ≠ hashOne md5 false mergeBps [] (merge "merge_two" [x, y "b.cfg", y "c.cfg"]) := by decide
+
 end St4sd.C16.Witness
